@@ -26,6 +26,7 @@ func init() {
 	wrap("C08", extra11C08)
 	wrap("C05", extra11C05)
 	wrap("C19", extra11C19)
+	wrap("C20", extra11C20)
 	wrap("C10", extra11C10)
 	wrap("C02", extra11C02)
 	wrap("C15", extra11C15)
@@ -641,6 +642,56 @@ func extra11C07(c *Ctx) {
 		}
 	}
 	c.Check(rule, f.Key()+" refuses on the first refusal", c.Pos(loop.Stmt), sawFalse, "no `return false` on the false edge of a wrapped cache's CanResume inside the loop")
+
+	rule = "C07-R24"
+	c.Rule(rule, "a token that follows several images is given each of them and a hash of all of them: in mllama's PostTokenize the loop whose index is bounded by the length of the collected images indexes only that list with it, and reads no fixed element of the list in its body — `images[0]` there hands the first image over again and again, and `inputs[j]` hashes an unrelated input, so two prompts that differ in a later image share a MultimodalHash and the cached prefix of one is reused for the other")
+	if pf := c.Fn(rule, "model/models/mllama", "Model.PostTokenize"); pf != nil {
+		pinfo := pf.Info()
+		nLoops := 0
+		ast.Inspect(pf.Body, func(nd ast.Node) bool {
+			fs, ok := nd.(*ast.ForStmt)
+			if !ok || fs.Cond == nil {
+				return true
+			}
+			be, isB := ast.Unparen(fs.Cond).(*ast.BinaryExpr)
+			if !isB || be.Op != token.LSS {
+				return true
+			}
+			jid, isJ := ast.Unparen(be.X).(*ast.Ident)
+			lc, isL := ast.Unparen(be.Y).(*ast.CallExpr)
+			if !isJ || !isL || core.CalleeName(pinfo, lc) != "builtin.len" || len(lc.Args) != 1 {
+				return true
+			}
+			lid, isLid := ast.Unparen(lc.Args[0]).(*ast.Ident)
+			if !isLid {
+				return true
+			}
+			j, list := pinfo.Uses[jid], pinfo.Uses[lid]
+			nLoops++
+			uses := 0
+			ast.Inspect(fs.Body, func(m ast.Node) bool {
+				ix, isIx := m.(*ast.IndexExpr)
+				if !isIx {
+					return true
+				}
+				if isIdentOf(pinfo, ix.Index, j) {
+					onList := isIdentOf(pinfo, ix.X, list)
+					if onList {
+						uses++
+					}
+					c.Check(rule, pf.Key()+" loop index used on the list it is bounded by", c.Pos(ix), onList, "`"+core.ExprString(ix)+"`: the index runs over "+list.Name()+" but selects from another list")
+				} else if isIdentOf(pinfo, ix.X, list) {
+					if _, isC := core.ConstInt(pinfo, ix.Index); isC {
+						c.Check(rule, pf.Key()+" no fixed element inside the loop", c.Pos(ix), false, "`"+core.ExprString(ix)+"` inside the loop over "+list.Name()+": the same element on every round")
+					}
+				}
+				return true
+			})
+			c.Check(rule, pf.Key()+" loop reads the current element", c.Pos(fs), uses >= 1, "the loop over "+list.Name()+" never reads the element of the current round")
+			return true
+		})
+		c.Expect(rule, "loops bounded by a list length in mllama PostTokenize", nLoops, 1)
+	}
 }
 
 // ---------------------------------------------------------------------------------- C13
@@ -996,4 +1047,64 @@ func extra11C10(c *Ctx) {
 		})
 	}
 	c.Expect(rule, "shape indexes and repacker installations in the adapter converters", n, 8)
+}
+
+// ---------------------------------------------------------------------------------- C20
+
+func extra11C20(c *Ctx) {
+	rule := "C20-R12"
+	c.Rule(rule, "a special token decodes to the text it was matched by: Encode finds a special token's literal in the raw text, not through the byte alphabet, so in BytePairEncoding.Decode every byte written through the alphabet's inverse (WriteByte of the un-mapped rune) is past a test of the token's type against TOKEN_TYPE_CONTROL, and the branch of that test writes the token's value as it stands — without it a special token with characters beyond Latin-1 (`<｜end｜>`) decodes to other bytes and text containing its literal does not round-trip")
+	f := c.Fn(rule, "model", "BytePairEncoding.Decode")
+	if f == nil {
+		return
+	}
+	info := f.Info()
+	g := c.G(f)
+	var ctl types.Object
+	if p := c.P.Pkgs["model"]; p != nil {
+		ctl = p.Types.Scope().Lookup("TOKEN_TYPE_CONTROL")
+	}
+	if ctl == nil {
+		c.Undecided(rule, "anchor:model.TOKEN_TYPE_CONTROL", "-", "anchor lost")
+		return
+	}
+	mentionsCtl := func(e ast.Node) bool {
+		return e != nil && core.UsesObj(info, e, ctl)
+	}
+	var tests []core.Loc
+	for _, cb := range g.CondBlocks() {
+		if cb.Cond != nil && mentionsCtl(cb.Cond) {
+			tests = append(tests, g.CondLoc(cb.B))
+		}
+	}
+	n := 0
+	for _, call := range core.Calls(f.Body, false) {
+		if !strings.HasSuffix(core.CalleeName(info, call), "strings.Builder.WriteByte") {
+			continue
+		}
+		n++
+		ok := false
+		for _, tl := range tests {
+			if g.Dominates(tl, g.Locate(call)) {
+				ok = true
+			}
+		}
+		c.Check(rule, f.Key()+" un-mapped bytes only for tokens that are not special", c.Pos(call), ok, "the byte alphabet's inverse is applied without the token's type having been tested: a special token's literal is taken for mapped bytes")
+	}
+	c.Expect(rule, "WriteByte calls in BytePairEncoding.Decode", n, 1)
+	verbatim := false
+	for _, call := range core.Calls(f.Body, false) {
+		if !strings.HasSuffix(core.CalleeName(info, call), "strings.Builder.WriteString") || len(call.Args) != 1 {
+			continue
+		}
+		if len(core.CallsTo(info, call.Args[0], false, "model.Vocabulary.Decode")) != 1 {
+			continue
+		}
+		for _, a := range g.AtomsAt(g.Locate(call)) {
+			if be, isB := ast.Unparen(a.Expr).(*ast.BinaryExpr); isB && mentionsCtl(be) && ((be.Op == token.EQL && a.Val) || (be.Op == token.NEQ && !a.Val)) {
+				verbatim = true
+			}
+		}
+	}
+	c.Check(rule, f.Key()+" special tokens written as they stand", c.Pos(f.Decl), verbatim, "no WriteString of the token's value on the TOKEN_TYPE_CONTROL edge")
 }
